@@ -185,16 +185,15 @@ structure Config where
   followupMsg : Bool            -- followup_user_message configured
   enf : Enforcement
   valid : Request → Bool        -- the schema validation gate (an oracle of the model)
-
-def maxToolCalls : Nat := 32
+  maxCalls : Nat                -- DEFAULT_MAX_TOOL_CALLS (regenerated from the source by the driver)
 
 /-- answer the calls of one response: (answered ids, executed, rejected, new count, hit the bound) -/
-def answerCalls (enf : Enforcement) : List Call → Nat → List Str × List (Str × Str) × List (Str × Str) × Nat × Bool
+def answerCalls (enf : Enforcement) (maxCalls : Nat) : List Call → Nat → List Str × List (Str × Str) × List (Str × Str) × Nat × Bool
   | [], count => ([], [], [], count, false)
   | c :: cs, count =>
-    if count ≥ maxToolCalls then ([], [], [], count, true)
+    if count ≥ maxCalls then ([], [], [], count, true)
     else
-      match answerCalls enf cs (count + 1) with
+      match answerCalls enf maxCalls cs (count + 1) with
       | (ans, ex, rj, cnt, hit) =>
         if enf.allows c.name then (c.callId :: ans, (c.callId, c.name) :: ex, rj, cnt, hit)
         else (c.callId :: ans, ex, (c.callId, c.name) :: rj, cnt, hit)
@@ -215,7 +214,7 @@ def finish (st : LoopSt) (reason : String) : Outcome := { rounds := st.rounds, r
 def loop (cfg : Config) : List Response → LoopSt → Outcome
   | [], st => finish st "script-exhausted"
   | r :: rs, st =>
-    if st.count ≥ maxToolCalls then finish st "max_tool_calls_exceeded" else
+    if st.count ≥ cfg.maxCalls then finish st "max_tool_calls_exceeded" else
     let mk : Option Request :=
       match st.followup with
       | some outs =>
@@ -233,7 +232,7 @@ def loop (cfg : Config) : List Response → LoopSt → Outcome
       else if !havePrev && !cfg.stateless then
         finish { st with rounds := st.rounds ++ [{ request := req, calls := calls }] } "provider_error"
       else
-        match answerCalls cfg.enf calls st.count with
+        match answerCalls cfg.enf cfg.maxCalls calls st.count with
         | (ans, ex, rj, cnt, hit) =>
           let round : Round := { request := req, calls := calls, executed := ex, rejected := rj }
           let history := if cfg.stateless then st.history ++ calls.map (fun c => Item.fcall c.callId) else st.history
